@@ -73,10 +73,28 @@ func replay() {
 		fuzzOne(w.Target, in, &partition{Mode: "replay", cuts: w.Cuts, ones: w.Ones})
 	case "live":
 		runLive([]liveJob{{carrier: w.Carrier, id: id}})
+	case "live-all":
+		runLive(liveJobs(run.Seed))
 	default:
 		run.Fatal("unknown witness part %q", w.Part)
 	}
 	run.Finish(max(evals.Load(), 1), "replay")
+}
+
+// liveJobs: the tunnel sessions of a run, a function of (seed, tier).
+func liveJobs(seed int64) []liveJob {
+	nRaw := run.Pick(36, 1700)   // raw sessions per tunnel kind, ~28 requests each
+	nClient := run.Pick(12, 300) // library-client sessions per tunnel kind
+	var jobs []liveJob
+	for i := 0; i < nRaw; i++ {
+		jobs = append(jobs, liveJob{"tunnel-http", caseID{Part: "live", Seed: seed, Role: "live/http", Idx: i}})
+		jobs = append(jobs, liveJob{"tunnel-ws", caseID{Part: "live", Seed: seed, Role: "live/ws", Idx: i}})
+		if i < nClient {
+			jobs = append(jobs, liveJob{"client-tunnel-http", caseID{Part: "live", Seed: seed, Role: "live/client-http", Idx: i}})
+			jobs = append(jobs, liveJob{"client-tunnel-ws", caseID{Part: "live", Seed: seed, Role: "live/client-ws", Idx: i}})
+		}
+	}
+	return jobs
 }
 
 func main() {
@@ -113,17 +131,7 @@ func main() {
 
 	// (v) live tunnels (network-bound; run before the CPU-bound phases so that no session
 	// competes with 16 busy parsers)
-	nRaw := run.Pick(36, 1700)   // raw sessions per tunnel kind, ~28 requests each
-	nClient := run.Pick(12, 300) // library-client sessions per tunnel kind
-	var jobs []liveJob
-	for i := 0; i < nRaw; i++ {
-		jobs = append(jobs, liveJob{"tunnel-http", caseID{Part: "live", Seed: seed, Role: "live/http", Idx: i}})
-		jobs = append(jobs, liveJob{"tunnel-ws", caseID{Part: "live", Seed: seed, Role: "live/ws", Idx: i}})
-		if i < nClient {
-			jobs = append(jobs, liveJob{"client-tunnel-http", caseID{Part: "live", Seed: seed, Role: "live/client-http", Idx: i}})
-			jobs = append(jobs, liveJob{"client-tunnel-ws", caseID{Part: "live", Seed: seed, Role: "live/client-ws", Idx: i}})
-		}
-	}
+	jobs := liveJobs(seed)
 	if want("live") {
 		runLive(jobs)
 	}
